@@ -120,5 +120,7 @@ fn main() {
             2
         }
     };
+    // whichever subcommand ran scenarios in this process (minimiser, pinpoint, replay of findings)
+    cleanup_scratch();
     std::process::exit(code);
 }
